@@ -74,7 +74,7 @@ type protoObs struct {
 	Stack      string    `json:"stack,omitempty"`
 }
 
-const watchdog = 20 * time.Second
+const watchdog = 45 * time.Second // generous: a loaded machine must not turn a slow call into a "blocked" one
 
 type chanRec struct {
 	ch     chan events.Event
